@@ -428,6 +428,16 @@ func clCollectionWorker(c *Ctx, want string) {
 			c.Check(fi.Dominates(del, advance), fn, del, "every listed node is unlinked before advancing", "some path advances to the next garbage node without unlinking the current one (node stays linked for ever, or is freed while linked)")
 		}
 	}
+	// the store is looked up after the list was received: LoadFromDisk replaces m.store while writers (and their workers) exist
+	if want == "C06.d" || want == "all" {
+		hi, _ := head.(ssa.Instruction)
+		fresh := false
+		if ld, ok := strip(callOf(del).Args[0]).(*ssa.UnOp); ok && ld.Op == token.MUL && hi != nil {
+			fresh = fi.Dominates(hi, ld)
+		}
+		c.Check(fresh, fn, del, "the store is looked up after the garbage list was received",
+			"the worker unlinks from a store it looked up before the list arrived (e.g. once at start-up): after LoadFromDisk replaced the store, nodes of the new store stay linked while they are handed to the free workers, and Close's sweep frees them a second time")
+	}
 	// flush after the complete walk, carrying the list head
 	for _, fl := range p.CallSites(fn, flush) {
 		arg := strip(callOf(fl).Args[1])
